@@ -345,7 +345,7 @@ Definition build_type (R : registry) (fuel : nat) (p : path) (size alignment : N
 
 (** ** build_enum *)
 Definition disc_tokens (z : Z) : list sexp :=
-  (if (z <? 0)%Z then [tk "-"] else []) ++ [tint (Z.abs_N z) "isize"; tk "as"; tk "_"].
+  (if (z <? 0)%Z then [tk "-"] else []) ++ [tint (Z.abs_N z) "i64"; tk "as"; tk "_"].
 
 Fixpoint enum_variants (fs : list (string * Z)) (idx : nat) (default_index : option nat) : outcome (list sexp) :=
   match fs with
